@@ -315,6 +315,63 @@ def fam_quoted(sess):
     sess.bounds['quoted'] = {'words': words}
 
 
+def cli_rows_replay(atom, v, l, op, cname):
+    def rep():
+        exe = common.native_binary()
+        r = common.run_cli(exe, ['name from . where ' + atom], {v: {'size': 1}})
+        rows = r['stdout'].split('\n')[:-1]
+        value = v if cname == 'Name' else './' + v
+        want = [v] if (value == l) == (op == 'Eeq') else []
+        return rows != want or r['status'] != 0, 'where %s on a file named %r -> rows %r, expected %r (status %s)' % (atom, v, rows, want, r['status'])
+    return rep
+
+
+def fam_literal_text(sess):
+    """the two operands of a comparison are evaluated independently: `name === <literal>` holds exactly when the name IS the
+    literal text, also when the literal spells the column's own name or display name (value caches are keyed by such texts)"""
+    prog = sess.prog
+    fam = 'literal/text'
+    ex = sess.executor(E.EVAL_OVERRIDES, unwind=8)
+    words = ['Name', 'name', 'NAME', 'Size', 'size', 'abc', 'Path', '']
+    box = {}
+
+    def run(ctx):
+        val = table_str(ctx, 'value', words[:-1])
+        lit = table_str(ctx, 'lit', words[:-1])
+        k = ctx.concretize(ctx.fresh_bv('op', 64), [prog.src.variant_index('Op', o) for o in ('Eeq', 'Ene')])
+        col = ctx.concretize(ctx.fresh_bv('col', 8), [0, 1])
+        cname = ['Name', 'Path'][col]
+        ctx.ghost['fields'] = {cname: E.mk_variant(prog, 'String', string_value=val)}
+        e = E.expr_cmp(prog, E.expr_field(prog, cname), E.op_enum(prog, prog.src.variant_name('Op', k)), E.expr_value(prog, lit))
+        r = E.run_conforms(ctx, prog, e)
+        same = Or([And(val.var == i, lit.var == j) for i, a in val.tab.items() for j, b in lit.tab.items() if a == b])
+        return val, lit, k, cname, r, (same if prog.src.variant_name('Op', k) == 'Eeq' else Not(same))
+
+    def on_path(ctx, out):
+        if out[0] != 'ret':
+            sess.inconclusive(fam, str(out), fam); box['bad'] = True; return
+        val, lit, k, cname, r, ref = out[1]
+        box['paths'] = box.get('paths', 0) + 1
+        if ctx.check(r != ref) == z3.unsat or box.get('viol'):
+            return
+        box['viol'] = True
+        m = ctx.model(r != ref)
+        v = val.tab[m.eval(val.var, model_completion=True).as_long()]; l = lit.tab[m.eval(lit.var, model_completion=True).as_long()]
+        op = prog.src.variant_name('Op', k)
+        want = z3.is_true(m.eval(ref, model_completion=True))
+        atom = "%s %s '%s'" % (cname.lower(), E.OP_TEXT[op], l)
+        tree = {v: {'size': 1}}
+        if cname == 'Path':
+            tree = {v: {'size': 1}}
+        sess.violated('%s %s' % (fam, atom), 'literal/text/' + ('own-name' if l.lower() == cname.lower() else 'other'),
+                      'entry %r: evaluator says %s, the literal text comparison says %s' % (v, not want, want), {'atom': atom, 'entry': v},
+                      cli_rows_replay(atom, v, l, op, cname), fam)
+    ex.explore(run, on_path)
+    sess.bounds[fam] = {'values / literals': words[:-1], 'columns': ['name', 'path'], 'operators': ['===', '!==']}
+    if not box.get('viol') and not box.get('bad'):
+        sess.discharged('%s: name / path ===, !== <quoted literal>, literal and value from the same table' % fam, family=fam, queries=box.get('paths', 1))
+
+
 def main(sess):
     sess.engines = ['mirsym (MIR symbolic execution) + z3 %s' % z3.get_version_string()]
     sess.assumptions += [
@@ -325,6 +382,10 @@ def main(sess):
     ]
     only = getattr(sess, 'only', None)
     for name, f in (('tables', fam_tables), ('literal_int', fam_literal_int), ('literal_bool', fam_literal_bool),
-                    ('between', fam_between), ('quoted', fam_quoted)):
+                    ('between', fam_between), ('quoted', fam_quoted), ('literal_text', fam_literal_text)):
         if not only or name in only:
             f(sess)
+
+    if not only or 'e2e' in only:
+        from drivers import e2e
+        e2e.family_for(sess, 'C02')
